@@ -27,7 +27,8 @@ import (
 type E2E struct {
 	Kind      string `json:"kind"` // complete | doc | claim | type
 	Seed      int64  `json:"seed"`
-	ProofType string `json:"proof_type"` // the type asked of VerifyProof
+	Proof     string `json:"proof"`      // bjj (default) | smt: which proof the issuer produces
+	ProofType string `json:"proof_type"` // the type asked of VerifyProof ("" = the produced one)
 	AsType    string `json:"as_type"`    // the "type" member written into the proof object
 }
 
@@ -113,19 +114,70 @@ func (id *issuerID) sign(c *core.Claim) (string, error) {
 	return hex.EncodeToString(s[:]), nil
 }
 
-type stubDID struct{ id *issuerID }
+// stubDID knows the issuer's genesis state (not published: the genesis rule applies)
+// and the states it published later.
+type stubDID struct {
+	id        *issuerID
+	published map[string]bool
+}
 
 func (s stubDID) Resolve(_ context.Context, did *w3c.DID) (verifiable.DIDDocument, error) {
 	c := *did
 	c.Query = ""
-	if c.String() != s.id.did.String() || strings.TrimPrefix(did.Query, "state=") != s.id.stateHex {
+	st := strings.TrimPrefix(did.Query, "state=")
+	if c.String() != s.id.did.String() || (st != s.id.stateHex && !s.published[st]) {
 		return verifiable.DIDDocument{}, fmt.Errorf("stub resolver: unknown %s", did.String())
 	}
 	base := c.String()
 	doc := verifiable.DIDDocument{Context: "https://www.w3.org/ns/did/v1", ID: base}
 	vm := verifiable.CommonVerificationMethod{ID: base + "#stateInfo", Type: "Iden3StateInfo2023", Controller: base}
-	doc.VerificationMethod = append(doc.VerificationMethod, vm) // not published: the genesis rule applies
+	if s.published[st] {
+		t := true
+		vm.IdentityState.Published = &t
+	}
+	doc.VerificationMethod = append(doc.VerificationMethod, vm)
 	return doc, nil
+}
+
+// bundleSMT adds `signed` to the issuer's claims tree (a new, published state) and attaches the
+// inclusion proof, carrying `carried` as coreClaim.
+func (id *issuerID) bundleSMT(doc []byte, signed, carried *core.Claim, asType string) ([]byte, string, error) {
+	hi, hv, err := signed.HiHv()
+	if err != nil {
+		return nil, "", err
+	}
+	if err := id.claims.Add(bg, hi, hv); err != nil {
+		return nil, "", err
+	}
+	ctr := id.claims.Root().BigInt()
+	st, err := poseidon.Hash([]*big.Int{ctr, big.NewInt(0), big.NewInt(0)})
+	if err != nil {
+		return nil, "", err
+	}
+	p, _, err := id.claims.GenerateProof(bg, hi, nil)
+	if err != nil {
+		return nil, "", err
+	}
+	ch, err := carried.Hex()
+	if err != nil {
+		return nil, "", err
+	}
+	proof := map[string]any{
+		"type": asType,
+		"issuerData": map[string]any{
+			"id":    id.did.String(),
+			"state": map[string]any{"value": hexOf(st), "claimsTreeRoot": hexOf(ctr)},
+		},
+		"coreClaim": ch,
+		"mtp":       p,
+	}
+	var m map[string]any
+	if err := json.Unmarshal(doc, &m); err != nil {
+		return nil, "", err
+	}
+	m["proof"] = []any{proof}
+	b, err := json.Marshal(m)
+	return b, hexOf(st), err
 }
 
 type stubStatus struct{ id *issuerID }
@@ -211,11 +263,23 @@ func (g *gen) execE2E(in *Input, vc *verifiable.W3CCredential, r *result) {
 		}
 		r.claim = s
 	}
+	produced := verifiable.BJJSignatureProofType
+	if in.E2E.Proof == "smt" {
+		produced = verifiable.Iden3SparseMerkleTreeProofType
+	}
 	asType := in.E2E.AsType
 	if asType == "" {
-		asType = string(verifiable.BJJSignatureProofType)
+		asType = string(produced)
 	}
-	b, err := id.bundle(doc, signed, carried, asType)
+	resolver := stubDID{id: id, published: map[string]bool{}}
+	var b []byte
+	if in.E2E.Proof == "smt" {
+		var st string
+		b, st, err = id.bundleSMT(doc, signed, carried, asType)
+		resolver.published[st] = true
+	} else {
+		b, err = id.bundle(doc, signed, carried, asType)
+	}
 	if err != nil {
 		r.class, r.msg = "skipped", "bundle: "+err.Error()
 		return
@@ -229,9 +293,9 @@ func (g *gen) execE2E(in *Input, vc *verifiable.W3CCredential, r *result) {
 	reg.Register(e2eStatusType, stubStatus{id})
 	pt := verifiable.ProofType(in.E2E.ProofType)
 	if pt == "" {
-		pt = verifiable.BJJSignatureProofType
+		pt = produced
 	}
-	err = full.VerifyProof(bg, pt, stubDID{id},
+	err = full.VerifyProof(bg, pt, resolver,
 		verifiable.WithStatusResolverRegistry(&reg), verifiable.VerifWithMerklizeOptions(g.mzOpts(0)...))
 	acc := err == nil
 	r.e2eAccept = &acc
@@ -297,7 +361,10 @@ func (g *gen) generateE2E(schs []*schemaInfo) {
 			c := g.base(sch, sp, o, "e2e")
 			c.E2E = &E2E{Kind: "complete", Seed: seed + int64(pi)}
 			ins = append(ins, c)
-			// another proof type asked / written
+			c2 := g.base(sch, sp, o, "e2e")
+			c2.E2E = &E2E{Kind: "complete", Seed: seed + int64(pi), Proof: "smt"}
+			ins = append(ins, c2)
+			// another proof type asked
 			t1 := g.base(sch, sp, o, "e2e")
 			t1.E2E = &E2E{Kind: "type", Seed: seed, ProofType: string(verifiable.Iden3SparseMerkleTreeProofType)}
 			t1.Site = "type:requested-other"
@@ -306,12 +373,15 @@ func (g *gen) generateE2E(schs []*schemaInfo) {
 				continue
 			}
 			doc := buildDoc(sp)
-			for _, m := range docMods(doc, sch) {
+			for mi, m := range docMods(doc, sch) {
 				in := g.base(sch, sp, o, "e2e")
 				mb, _ := json.Marshal(m.Doc)
 				in.ModCred, in.Site, in.Field = mb, m.Site, m.Field
 				in.Bound = boundSite(sch, m, !sp.NoSubjectType)
 				in.E2E = &E2E{Kind: "doc", Seed: seed}
+				if mi%2 == 1 {
+					in.E2E.Proof = "smt"
+				}
 				ins = append(ins, in)
 			}
 			vc, _ := parseVC(c.Cred)
@@ -321,14 +391,19 @@ func (g *gen) generateE2E(schs []*schemaInfo) {
 				continue
 			}
 			mods := fieldMods(slots)
-			if si == 0 || g.cfg.Thorough() {
+			if g.cfg.Thorough() && si < 2 {
 				mods = append(mods, allBitFlips(slots)...)
+			} else {
+				mods = append(mods, sampledFlips(slots, g.cfg.Rng, 2)...)
 			}
-			for _, m := range mods {
+			for mi, m := range mods {
 				in := g.base(sch, sp, o, "e2e")
 				in.Site, in.Field, in.ModClaim = m.Site, m.Field, slotStrings(m.Slots)
-				in.Bound = true // end to end every change of the signed claim must be rejected
+				in.Bound = true // end to end every change of the signed / included claim must be rejected
 				in.E2E = &E2E{Kind: "claim", Seed: seed}
+				if mi%2 == 1 {
+					in.E2E.Proof = "smt"
+				}
 				ins = append(ins, in)
 			}
 		}
